@@ -19,6 +19,7 @@ var borrowed = []struct {
 	{"C16", "C01", "par", ""},                                // "told of completion exactly once" also when Exit is called from two goroutines at once
 	{"C08", "C09", "coop", ""},                               // "nothing inside the window is lost" also when the rollover is contended
 	{"C07", "C01", "par", ""},                                // the inbound in-flight count the rules read stays exact (never negative) also when a rule check panics
+	{"C07", "C01", "first", ""},                              // ... and from the very first inbound requests of a process on
 	{"C07", "C09", "coop", ""},                               // the inbound QPS / RT windows the rules read lose nothing around a contended bucket rollover
 	{"C12", "C03", "seq", "VERIF_C03_FAMILY=modify"},         // "no half-open before a full retry timeout" also when the rule of an open breaker is modified (that family only: the reference machine of C03 admits the probe AT the deadline, which C12 does not ask for)
 	{"C04", "C15", "coop", "VERIF_RULESCO_MODULE=isolation"}, // "rejected iff in-flight + b > N" while rules of OTHER resources are loaded and cleared (isolation module only)
